@@ -97,6 +97,7 @@ int main(int argc, char **argv)
 		if (r < 0 && !strncmp(args[0], "m.", 2)) r = ops_merger(args, na);
 		if (r < 0 && !strncmp(args[0], "fs.", 3)) r = ops_fileset(args, na);
 		if (r < 0 && (!strncmp(args[0], "cz.", 3) || !strncmp(args[0], "wa.", 3) || !strncmp(args[0], "tool.", 5) || !strncmp(args[0], "rv.", 3))) r = ops_misc(args, na);
+		if (r < 0 && !strcmp(args[0], "rv.big4g")) r = ops_big(args, na);
 		if (r < 0 && !strncmp(args[0], "res.", 4)) r = ops_res(args, na);
 		if (r < 0 && (!strncmp(args[0], "s.", 2) || !strncmp(args[0], "sys.", 4))) r = ops_sorter(args, na);
 		if (r < 0 && !strncmp(args[0], "mt.", 3)) r = ops_mt(args, na);
